@@ -60,7 +60,14 @@ def rule_return_table(ctx: Ctx, repo: Repo) -> None:
             params = fi.positional_params()
             if len(params) < 3:
                 raise AnalysisError("handle_return no longer takes (self, frame, arg)")
-            outs = sc.run({params[1]: frame_value(p), params[2]: S("arg")})
+            import inspect as _insp
+            is_asyncgen = bool(p.code.co_flags & _insp.CO_ASYNC_GENERATOR)
+            arg_v: V = S("arg")
+            if p.kind == "unwind":
+                arg_v = K(None)  # what the profile function is handed while the frame unwinds
+            elif p.kind == "yield" and is_asyncgen:
+                arg_v = S("val:async_generator_wrapped_value box")  # the interpreter's box around the yielded value
+            outs = sc.run({params[1]: frame_value(p), params[2]: arg_v})
             if len(outs) != 1:
                 raise AnalysisError(f"handle_return: {len(outs)} outcomes for one scenario")
             effs = relevant(outs[0].effects)
@@ -99,6 +106,22 @@ def rule_return_table(ctx: Ctx, repo: Repo) -> None:
                     ctx.check(logs[0][1] and isinstance(logs[0][1][0], R) and logs[0][1][0].kind == "trace"
                               and logs[0][1][0].fields.get("id") == K("in-flight"),
                               "R-C02.3", w, "the logged object is the frame's in-flight trace", construct=f"log({logs[0][1]})")
+            elif p.kind == "unwind":
+                # a generator / coroutine that finishes because an exception thrown into it leaves the frame has FINISHED by
+                # raising: logged once without a return type, entry deleted, and the None the event carries is not a yield
+                ok = len(logs) == 1 and len(dels) == 1 and not sets and not ylds and not stores
+                ctx.check(ok, "R-C02.9", w,
+                          "a suspended generator or coroutine that finishes by an exception thrown into it (close(), uncaught throw(), cancellation) is logged once without a return type, its entry is deleted, and nothing is added to its yield type",
+                          construct="the unwinding 'return' event of a suspended frame (arg None, f_lasti at the YIELD_VALUE) is taken for a " +
+                                    ("yield of None" if ylds else "suspension") + ": nothing is logged and the entry stays in self.traces",
+                          point=lab, effects=str(kinds))
+            elif p.kind == "yield" and is_asyncgen:
+                typ_box = R("typeof", of=arg_v)
+                bad_box = [y for y in ylds if y[1] == (typ_box,)]
+                ctx.check(not bad_box and not logs and not dels and not sets and not stores, "R-C02.6", w,
+                          "the yield type of an async generator covers the values it yielded (the event's arg there is the interpreter's internal box around the value, not the value)",
+                          construct="at an async generator's yield get_type(arg) is the class of CPython's async_generator_wrapped_value box, recorded as the yield type",
+                          point=lab)
             elif p.kind == "yield":
                 ok = len(ylds) == 1 and not logs and not dels and not sets and not stores
                 ctx.check(ok, "R-C02.1", w, "generator yield: yield type added, nothing logged, entry kept",
@@ -123,7 +146,7 @@ def rule_return_table(ctx: Ctx, repo: Repo) -> None:
             for g in gts:
                 ctx.check(g[2] == S("self.max_typed_dict_size"), "R-C02.6", w,
                           "get_type receives the tracer's max_typed_dict_size", construct=f"get_type(.., {g[2]})")
-    for k, minimum in (("return", 10), ("yield", 5), ("await", 4), ("exception", 20)):
+    for k, minimum in (("return", 10), ("yield", 5), ("await", 4), ("exception", 20), ("unwind", 8)):
         ctx.floor("R-C02.1", f"corpus points of kind {k}", by_kind.get(k, 0), minimum)
 
 
